@@ -111,8 +111,23 @@ static void gen_mul(opcase_t *c, rng_t *r, int maxdim) {
     if (l > 300) l = rng_int(r, 1, 300);
   }
   int pa = gen_pat(r), pb = gen_pat(r);
+  /* both factors as differently shaped views anchored at the same cell of one matrix (M[0:m,0:l] * M[0:l,0:n]): distinct objects with
+   * the same data pointer - must NOT be mistaken for the squaring case */
+  int shared = (v == V_MUL || v == V_ADDMUL || v == V_MUL_M4RM || v == V_ADDMUL_M4RM || v == V_MUL_NAIVE || v == V_ADDMUL_NAIVE) && !(c->op->flags & OPF_NOWIN) &&
+               rng_chance(r, 1, 12);
+  if (shared) {
+    int um = m > l ? m : l, un = l > n ? l : n;
+    c->shared_union = gen_mat(r, um, un, pa);
+    c->shared_slot[0] = 1;
+    c->shared_slot[1] = 2;
+    c->in[1] = rm_sub(c->shared_union, 0, 0, m, l);
+    c->in[2] = rm_sub(c->shared_union, 0, 0, l, n);
+    pb = pa;
+    hx_tag("shared-parent");
+  } else
   c->in[1] = gen_mat(r, m, l, pa);
-  if (v == V_SQR || v == V_ADDSQR) {
+  if (shared) {
+  } else if (v == V_SQR || v == V_ADDSQR) {
     c->same_as[2] = 1;
     pb = pa;
   } else if (v == V__MUL_NAIVE) {
